@@ -18,6 +18,12 @@ def rc(workers, cases, **kw):
     return [dict(mode="rc", cases=cases, **kw) for _ in range(workers)]
 
 
+def rcl(workers, cases, long_size, **kw):
+    """rapidcheck workers, every second one with long tapes (rapidcheck size up to long_size -> tape length up to 30 + 0.7*long_size):
+    the plans of the history-based checks are longer than the 100 bytes the default size gives"""
+    return [dict(mode="rc", cases=cases, **(dict(kw, max_size=long_size) if i % 2 else kw)) for i in range(workers)]
+
+
 def fuzz(workers, runs, **kw):
     return [dict(mode="fuzz", runs=runs, **kw) for _ in range(workers)]
 
@@ -55,8 +61,8 @@ PROPS = {
         technique="simulation-based property testing: libcoap client and server (GnuTLS PSK, DTLS and TLS) on a virtual network with GnuTLS on the virtual clock; generated credential relations, requests queued before the handshake, datagram faults and injected cleartext; handler / NACK / event logs and a cleartext-marker scan of every byte on the wire as oracle",
         level_text="Generated near-miss keys (one bit, prefix, extension, other length), unknown identities and SNI names, refusing hint callback, 0..5 queued CON/NON requests, loss / duplication / delay of handshake datagrams, cleartext CoAP injected before and after the handshake from the client's address and from a stranger.",
         level_note="Trusted base: sim/sim.cc, sim/tls.cc (GnuTLS time sources), GnuTLS itself (the handshake is GnuTLS's; the check is about what libcoap does around it). PKI and RPK credentials are not generated. With faults the delivery clause is weakened to 'never twice, order kept, every CON concluded'.",
-        quick=rc(12, 4000),
-        thorough=rc(14, 60000),
+        quick=rcl(12, 4000, 240),
+        thorough=rcl(14, 60000, 240),
         wraps=SIM_WRAPS,
         extra_sources=["sim/sim.cc", "sim/tls.cc"],
         case_timeout=30,
@@ -77,8 +83,8 @@ PROPS = {
         technique="fault-injection property testing: for every scenario of a catalogue and every index k the k-th request to libcoap's typed allocator fails (ld --wrap); enumerated over all k with default parameters and generated over scenario parameters and failure pairs; ASan/UBSan/assert + allocation table + LeakSanitizer + canary exchange as oracle",
         level_text="13 scenarios (set-up/tear-down, GET CON/NON, PUT, Block1, Block2, observe, async, OSCORE, URI helpers, .well-known/core, TCP, cache), both endpoints libcoap; the enumeration tier fails every single allocation of every scenario once.",
         level_note="Trusted base: sim/alloc.cc (the allocation table and failure injection), sim/sim.cc, sanitizer runtimes. Only allocations through coap_malloc_type()/coap_realloc_type() are failed (not GnuTLS's or libc's own). 'The case returns' is a wall-clock watchdog of 30 s.",
-        quick=enum(4, 13 * 400) + rc(8, 6000),
-        thorough=enum(4, 13 * 400) + rc(12, 150000),
+        quick=enum(4, 14 * 400) + rc(8, 6000),
+        thorough=enum(4, 14 * 400) + rc(12, 150000),
         case_timeout=30,
         **SIM_ALLOC,
     ),
@@ -87,8 +93,8 @@ PROPS = {
         technique="stateful model-based property testing: generated fresh / out-of-order / replay / forgery histories produced by an independent RFC 8613 sender (ref/refoscore.h) against a libcoap OSCORE server, replay-window model as oracle; generated crash/restart histories of a libcoap OSCORE client with save callback, uniqueness of all Partial IVs on the wire as oracle",
         level_text="Histories of 1..40 deliveries, replay window 1..63 and default, Appendix B.1.2 on and off, sequence numbers at every Partial IV length boundary, gaps 1..2^20; sender: ssn_freq 1..20, 1..4 lives, crash after any request.",
         level_note="Trusted base: ref/refoscore.h + OpenSSL libcrypto (RFC 8613 Appendix C vectors checked at start-up), sim/sim.cc, the window model in props/C15.cc. A crash is modelled as 'nothing after the last save callback survives'; the save callback itself is assumed durable.",
-        quick=rc(12, 2500),
-        thorough=rc(14, 80000),
+        quick=rcl(12, 2500, 600),
+        thorough=rcl(14, 80000, 600),
         libs=["-lcrypto"],
         **SIM,
     ),
@@ -98,8 +104,8 @@ PROPS = {
         level_text="Generated security contexts (all id lengths 0..7, id context, salt, both AES-CCM key sizes, sequence numbers at every Partial IV length boundary up to 2^40), messages over the class E / class U option tables, "
                    "payload 0..1024, requests, responses and Observe notifications; per case a tamper sweep over every bit of the OSCORE option value, the ciphertext edges and a sample of the rest.",
         level_note="Trusted base: ref/refoscore.h + OpenSSL libcrypto (reproduces RFC 8613 C.1.1 and C.4 at start-up, otherwise the harness aborts), ref/refcodec.h, sim/sim.cc. Appendix B.1.2/B.2 negotiation is switched off here (C15 decides replay handling). Outer block-wise and Proxy-Uri splitting are not generated.",
-        quick=rc(12, 300),
-        thorough=rc(14, 8000),
+        quick=rcl(12, 300, 600),
+        thorough=rcl(14, 8000, 600),
         libs=["-lcrypto"],
         **SIM,
     ),
@@ -108,8 +114,8 @@ PROPS = {
         technique="stateful simulation-based property testing: generated request / reference / async / observe / time-jump / teardown histories from up to 50 scripted peers against a libcoap server (and client) on a virtual network; event and handler log against a session model, typed-allocation table, ASan and LeakSanitizer as lifetime oracle",
         level_text="Generated histories of 3..40 operations, session_timeout and max_idle_sessions from the tape, virtual time jumps around and across the session timeout, teardown wherever the history ends.",
         level_note="Trusted base: sim/sim.cc, sim/alloc.cc (ld --wrap of coap_malloc_type/coap_realloc_type/coap_free_type), the session model in props/C12.cc. UDP sessions only here; TCP session teardown is exercised by C05/C08, DTLS by C19.",
-        quick=rc(12, 8000),
-        thorough=rc(14, 100000),
+        quick=rcl(12, 8000, 410),
+        thorough=rcl(14, 100000, 410),
         **SIM_ALLOC,
     ),
     "C11": dict(
@@ -117,8 +123,8 @@ PROPS = {
         technique="stateful simulation-based property testing: generated register / change / cancel / RST / withheld-ACK / handler-error / delete histories against a libcoap server on a virtual network; temporal invariants over the wire trace against a registration-entry model",
         level_text="Generated histories of 3..30 operations over 1..3 observable resources and 1..4 scripted observers with per-datagram loss, duplication and delay and virtual time jumps beyond the session timeout.",
         level_note="Trusted base: sim/sim.cc, the entry model in props/C11.cc. Notifications larger than one block are covered through C09's Block2 machinery only for plain GET; TCP observers are not generated.",
-        quick=rc(12, 15000),
-        thorough=rc(14, 120000),
+        quick=rcl(12, 15000, 380),
+        thorough=rcl(14, 120000, 380),
         **SIM,
     ),
     "C09": dict(
@@ -127,8 +133,8 @@ PROPS = {
         level_text="Generated body lengths (dense around multiples of every block size), block size negotiation by MTU / server limit / client request, single-body and per-block modes, CON and NON, "
                    "drop/duplicate/delay plans; every piece any handler obtains is compared byte for byte with the sender's keyed pseudo-random body.",
         level_note="Trusted base: sim/sim.cc, handler bookkeeping in props/C09.cc. Q-Block (RFC 9177) is not enabled. 'Never silence' is checked for Confirmable transfers at bounded quiescence.",
-        quick=rc(12, 6000),
-        thorough=rc(14, 120000),
+        quick=rcl(12, 6000, 240),
+        thorough=rcl(14, 120000, 240),
         **SIM,
     ),
     "C05": dict(
@@ -138,8 +144,8 @@ PROPS = {
                    "every multi-byte header field; the enumerated tier walks 2- and 3-cut placements of short streams. The application's stack is overwritten between reads so that state kept in "
                    "a caller's stack buffer cannot survive by accident.",
         level_note="Trusted base: sim/sim.cc stream model (bytes become readable chunk by chunk, recv returns what is available), ref/refcodec.h, RFC 6455 framing in props/C05.cc. TLS/WSS framing is the same code above the TLS layer (C19 covers TLS).",
-        quick=rc(10, 700) + enum(6, 6000),
-        thorough=rc(12, 20000) + enum(4, 128000),
+        quick=rcl(10, 700, 330) + enum(6, 6000),
+        thorough=rcl(12, 20000, 330) + enum(4, 128000),
         libs=["-lcrypto"],
         **SIM,
     ),
@@ -149,8 +155,8 @@ PROPS = {
         level_text="Generated server configurations and requests over every code class, type, option combination and destination; the reply and the handler log must lie in the set "
                    "of outcomes admitted by an executable reading of the statement's rules (no precedence imposed where several rules apply).",
         level_note="Trusted base: decision table in props/C10.cc (DESIGN.md appendix A), ref/refcodec.h, sim/sim.cc. Error response payloads (diagnostic text) are not compared. Observe and block-wise handling are C11/C09.",
-        quick=rc(8, 8000),
-        thorough=rc(14, 250000) + fuzz(2, 300000, max_len=360),
+        quick=rcl(8, 8000, 470),
+        thorough=rcl(14, 250000, 470) + fuzz(2, 300000, max_len=360),
         **SIM,
     ),
     "C08": dict(
@@ -158,8 +164,8 @@ PROPS = {
         technique="simulation-based property testing: bursts of CON/NON submissions against scripted ACK/RST peers with faults on a virtual network; in-flight counter, FIFO and exactly-once oracle computed from the wire trace; TCP sessions with withheld CSM for the not-yet-established clause",
         level_text="Generated bursts, NSTART values, reply scripts (per received copy) and faults; the oracle replays the wire trace and never looks at libcoap's counters.",
         level_note="Trusted base: sim/sim.cc, ref/refcodec.h. The peer only answers copies it received, as the statement requires. DTLS hold-queue behaviour is decided in C19.",
-        quick=rc(8, 5000),
-        thorough=rc(14, 120000),
+        quick=rcl(8, 5000, 380),
+        thorough=rcl(14, 120000, 380),
         **SIM,
     ),
     "C07": dict(
@@ -181,8 +187,8 @@ PROPS = {
                    "The thorough tier enumerates all 1024 drop subsets of the first 10 datagrams for 6 timer settings.",
         level_note="Trusted base: sim/sim.cc (virtual sockets replace coap_socket_* of coap_io.c), ref/refcodec.h. Tolerance on T is the Q.6 fixed point representation only. "
                    "NACK calls with a NULL PDU (unmatched RST) are labelled, not counted as a message outcome.",
-        quick=rc(8, 12000) + enum(2, 1024),
-        thorough=rc(12, 300000) + enum(4, 6144),
+        quick=rcl(8, 12000, 270) + enum(2, 1024),
+        thorough=rcl(12, 300000, 270) + enum(4, 6144),
         **SIM,
     ),
     "C20": dict(
@@ -193,8 +199,8 @@ PROPS = {
                    "Exact-size heap strings make filter overreads ASan reports. The block-wise GET clause is decided in the simulated network (see evidence counters).",
         level_note="Trusted base: ref/reflink.h (printer, quote-aware parser, RFC 6690 4.1 filter). Out of domain (memory safety only): filter without '=', "
                    "attribute values that start with '\"' but are not complete quoted strings, patterns containing spaces.",
-        quick=rc(8, 2500),
-        thorough=rc(14, 60000) + fuzz(2, 60000, max_len=260),
+        quick=rcl(8, 2500, 600),
+        thorough=rcl(14, 60000, 600) + fuzz(2, 60000, max_len=260),
         assumptions=["order of links and of parameters is not constrained (hash / list order)"],
         **SIM,
     ),
